@@ -5,6 +5,8 @@
     infeasible below/above, unbounded}; solve is run with maxfun = npt and the recorded evaluations are the initial set.
 (b) direction generators: all active-set patterns {lower==0, upper==0, tight, far}^n, n<=4 x requested counts 1..2n+2
     x RNG answers from a fixed menu (identity, rotation, nearly parallel, sign-flipped, bank streams).
+(c) n = 6 (quick), n in {5, 6, 8} (thorough) for both layers: every assignment with at most two coordinates departing
+    from the default (interior x0 / far bounds), all position pairs.
 oracle  : geometry predicates (exact bounds, distances in [0.01,2]*rhobeg, cond of the scaled interpolation matrix < 1e4);
           generators return the requested number of directions inside the given bounds and no longer than requested.
 """
@@ -50,13 +52,52 @@ def cases(tier, salts):
                             for delta in ((1e-3, 0.3, 1.0, 3.0, 50.0) if tier == "thorough" else (0.3, 1.0, 3.0)):
                                 out.append({"k": "dirs", "n": n, "pat": list(pat), "cnt": cnt, "menu": menu, "gen": gen,
                                             "delta": delta, "salt": salt})
+    return out + wide_cases(tier, salts)
+
+
+def wide_cases(tier, salts):
+    """n up to 8 (the property's bound): deviation-bounded enumeration - every assignment in which at most two coordinates
+    (all position pairs) depart from the default coordinate (x0 interior / far bounds), each to any placement / pattern."""
+    out = []
+    ns = (6,) if tier == "quick" else (5, 6, 8)
+    for salt in salts:
+        if tier == "quick" and salt != salts[0]:
+            continue
+        for n in ns:
+            if n == 8 and salt > 1:
+                continue
+            alts = list(range(1, len(PLACEMENTS)))
+            combos = [()] + [((i, a),) for i in range(n) for a in alts]
+            combos += [((i, a), (j, b)) for i in range(n) for j in range(i + 1, n) for a in alts for b in alts]
+            for combo in combos:
+                pl = [0] * n
+                for i, a in combo:
+                    pl[i] = a
+                for rhobeg in ((0.1,) if tier == "quick" else (1e-3, 1.0)):
+                    for gap in (2.0000001, 10.0):
+                        for npt in sorted(set([n + 1, n + 2, 2 * n + 1] + ([2 * n] if tier == "thorough" else []))):
+                            out.append({"k": "init", "n": n, "rhobeg": rhobeg, "gap": gap, "npt": npt, "pl": pl, "salt": salt})
+            far = len(PATTERNS) - 1
+            palts = list(range(far))
+            pcombos = [()] + [((i, a),) for i in range(n) for a in palts]
+            pcombos += [((i, a), (j, b)) for i in range(n) for j in range(i + 1, n) for a in palts for b in palts]
+            for combo in pcombos:
+                pat = [far] * n
+                for i, a in combo:
+                    pat[i] = a
+                for cnt in sorted(set([1, n - 1, n, n + 1, 2 * n, 2 * n + 2])):
+                    for menu in (("identity", "bank0") if tier == "quick" else ("identity", "nearpar", "flip", "bank0", "bank1")):
+                        for gen in ("random", "orthog", "orthog_noneg"):
+                            for delta in ((1.0,) if tier == "quick" else (1e-3, 1.0, 50.0)):
+                                out.append({"k": "dirs", "n": n, "pat": pat, "cnt": cnt, "menu": menu, "gen": gen,
+                                            "delta": delta, "salt": salt})
     return out
 
 
 def _init_problem(case):
     n, rhobeg, gap = case["n"], case["rhobeg"], case["gap"]
     e = 1.0 + 0.003 * case["salt"]
-    lo = np.array([-1.0 / 3.0, 0.1, -2.0][:n]) * e
+    lo = np.array([-1.0 / 3.0, 0.1, -2.0, 0.7, -0.2, 1.0 / 7.0, -5.0, 0.03][:n]) * e
     hi = lo + gap * rhobeg
     x0 = np.zeros(n)
     lo_l, hi_l = [], []
@@ -250,7 +291,8 @@ def run(report, tier, seed):
     cov["distinct_nontrivial"] = int(tags.get("init_point_on_bound", 0) + tags.get("dir_clipped", 0))
     cov["condition_histogram"] = {t: tags[t] for t in tags if t.startswith("cond<")}
     cov["salts"] = salts
-    report.assumptions += ["n<=3 for the initial set (property quantifies to n=8), n<=4 for the generators",
+    report.assumptions += ["full Cartesian products for n<=3 (initial set) and n<=4 (generators); n = 6 (quick) and n in {5,6,8} "
+                           "(thorough) with at most two coordinates departing from the default placement / pattern",
                            "RNG owned by the harness: np.random.normal answered from fixed menus"]
 
 
